@@ -7,22 +7,26 @@ VERIF = os.path.dirname(os.path.dirname(os.path.abspath(__file__)))
 
 # additions of the second round of independently seeded changes (rule families, see DESIGN 11.1)
 EXTRA = {
- "C01": "; trigger-decision shape refiled as a necessary condition (no `not triggered` before every rule was consulted); the refreshed token object must be an allocation of the refresh helper",
- "C03": "; transport-wrapper rule over own http.RoundTripper implementations (body-consuming dump applied to the forwarded request, no write to the incoming request's headers/fields); TLS pool insertion only after the load can no longer fail",
+ "C17": "; URL-validator tests cannot be bypassed by an early `return f(…)`; the merge returns the join of everything collected, evaluated after the loops",
+ "C16": "; shared vs exclusive lock tokens; no write to a dependency's package-level object without Clone; response header lists own their backing array",
+ "C06": "; generator results never kept in long-lived containers; the callback's session id comes from the cookie only",
+ "C02": "; the judging handler is built per check from the matched filter; the access-token entry is written whenever forwarding is configured and a token is present (path feasibility under assumed atoms)",
+ "C01": "; trigger-decision shape refiled as a necessary condition (no `not triggered` before every rule was consulted); the refreshed token object must be an allocation of the refresh helper; verdict totality of every Handler.Process refiled (an unset verdict is read as OK)",
+ "C03": "; transport-wrapper rule over own http.RoundTripper implementations (body-consuming dump applied to the forwarded request, no write to the incoming request's headers/fields); TLS pool insertion only after the load can no longer fail; IdP answer read whole; response header lists own their backing array; optional nonce compared only against an existing expectation; token_type comparison decisive",
  "C04": "; transport-wrapper rule over own http.RoundTripper implementations (credentials and form of the token request reach the IdP unchanged)",
- "C05": "; every object that can be the logout answer carries the expiring cookie",
- "C07": "; `not triggered` only behind the exhaustion of the rule loop",
+ "C05": "; every object that can be the logout answer carries the expiring cookie; response header lists own their backing array; stores report a failed removal",
+ "C07": "; `not triggered` only behind the exhaustion of the rule loop; the trigger functions consult no package-level state",
  "C08": "; who-may-write rule on Config.Chains / FilterChain.Filters / FilterChainMatch; the unmatched tail is entered only from the chain loop's exhaustion edge",
- "C09": "; response header lists never share the backing array of a package-level slice; discovery cache keyed by the fetched URI",
- "C10": "; store constructors called only from the factory's PreRun; HSETNX of the creation time on every successful path of both setters and never HDEL'ed",
- "C11": "; expiry-test shape refiled (a required token's expiry cannot be shadowed)",
- "C12": "; creation-time stamping on every successful path (no replica-local `already stamped` shortcut)",
- "C13": "; discovery cache keyed by the fetched URI",
- "C14": "; whole-object taint sources (an object with secret fields handed to a formatter)",
- "C15": "; own RoundTripper implementations are crash roots; the value result of a (value, error) call passed to a dependency function counts as a dereference; results of dependency interfaces follow the err == nil convention",
- "C18": "; loop-carried-argument rule on the store constructors' timeouts; handler built per check from the matched filter",
- "C19": "; latch rule on the watch decision; provenance rule on the handler's configuration (constructor parameter or its own proto.Clone)",
- "C20": "; TLS pool insertion only after the load can no longer fail",
+ "C09": "; response header lists never share the backing array of a package-level slice; discovery cache keyed by the fetched URI; the cookie the logout expires is named by the filter's own cookie name",
+ "C10": "; store constructors called only from the factory's PreRun; HSETNX of the creation time on every successful path of both setters and never HDEL'ed; the refresher is handed the stored creation time and arms EXPIREAT on every successful return; only the two write operations stamp; a looked-up session reaches its first use only through the expiry predicate (also through phis)",
+ "C11": "; expiry-test shape refiled (a required token's expiry cannot be shadowed); optional nonce compared only against an existing expectation; token_type comparison decisive",
+ "C12": "; creation-time stamping on every successful path (no replica-local `already stamped` shortcut); shared (RLock) vs exclusive lock tokens: writes need the exclusive one",
+ "C13": "; discovery cache keyed by the fetched URI; exact openid scope rule of the loader refiled",
+ "C14": "; whole-object taint sources (an object with secret fields handed to a formatter); token fields are assigned from same-named fields only",
+ "C15": "; own RoundTripper implementations are crash roots; the value result of a (value, error) call passed to a dependency function counts as a dereference; results of dependency interfaces follow the err == nil convention; make sizes must be constants, lengths or known non-negative",
+ "C18": "; loop-carried-argument rule on the store constructors' timeouts; handler built per check from the matched filter; the Redis client of a store is NewClient(ParseURL(own URI)); proto.Merge writes into an own copy",
+ "C19": "; latch rule on the watch decision; provenance rule on the handler's configuration (constructor parameter or its own proto.Clone); once the index key is computed the registration cannot be skipped",
+ "C20": "; TLS pool insertion only after the load can no longer fail; the file reader keeps the configured path as given",
 }
 
 # id -> (technique, level text, level note)
